@@ -25,6 +25,11 @@ type Broker struct {
 	QuiesceBudget time.Duration
 	nextConn      int
 	logBuf        *bytes.Buffer
+	// FreeTeardown disables the default schedule policy. By default every handler is parked when its read loop
+	// ends ("attach.afterRead") and released only once everything else is quiescent, so that the teardown of an old
+	// connection never overlaps the handler of the connection taking it over: the order the broker's code intends.
+	// The overlapping interleavings are explored on purpose by the schedule-directed checks (C13, C14, C16).
+	FreeTeardown bool
 }
 
 // Link is one connection plus the goroutine in which its handler (EstablishConnection) runs.
@@ -36,11 +41,12 @@ type Link struct {
 	done   chan struct{}
 	Err    error // what EstablishConnection returned
 
-	mu       sync.Mutex
-	parkReq  map[string]bool // points at which this handler must park
-	parkedAt string          // non-empty while parked
-	release  map[string]chan struct{}
-	visited  []string // schedule points passed, in order
+	mu           sync.Mutex
+	parkReq      map[string]bool // points at which this handler must park
+	parkedAt     string          // non-empty while parked
+	release      map[string]chan struct{}
+	visited      []string // schedule points passed, in order
+	autoTeardown bool     // parked at TeardownPoint by the default policy (released automatically by Quiesce)
 
 	parsed int // offset into Conn.out up to which output has been consumed by Take()
 }
@@ -87,6 +93,10 @@ func (b *Broker) Open(name string) *Link {
 	b.nextConn++
 	c := newConn(b.nextConn)
 	l := &Link{B: b, Conn: c, Name: name, done: make(chan struct{}), parkReq: map[string]bool{}, release: map[string]chan struct{}{}}
+	if !b.FreeTeardown {
+		l.parkReq[TeardownPoint] = true
+		l.autoTeardown = true
+	}
 	c.link = l
 	b.links = append(b.links, l)
 	b.mu.Unlock()
@@ -97,6 +107,9 @@ func (b *Broker) Open(name string) *Link {
 	return l
 }
 
+// TeardownPoint is the schedule point at which a handler's teardown begins.
+const TeardownPoint = "attach.afterRead"
+
 // OpenParked is Open with park requests installed before the handler starts.
 func (b *Broker) OpenParked(name string, points ...string) *Link {
 	b.mu.Lock()
@@ -105,6 +118,10 @@ func (b *Broker) OpenParked(name string, points ...string) *Link {
 	l := &Link{B: b, Conn: c, Name: name, done: make(chan struct{}), parkReq: map[string]bool{}, release: map[string]chan struct{}{}}
 	for _, p := range points {
 		l.parkReq[p] = true
+	}
+	if !b.FreeTeardown && !l.parkReq[TeardownPoint] {
+		l.parkReq[TeardownPoint] = true
+		l.autoTeardown = true
 	}
 	c.link = l
 	b.links = append(b.links, l)
@@ -271,7 +288,19 @@ func (b *Broker) Quiesce() error {
 		if all && out == lastOut {
 			stable++
 			if stable >= 2 {
-				return nil
+				// default schedule policy: now that everything else is quiet, let finished connections tear down
+				released := false
+				for _, l := range links {
+					if l.parkedAuto() {
+						l.Release(TeardownPoint)
+						released = true
+					}
+				}
+				if !released {
+					return nil
+				}
+				stable, lastOut = 0, -1
+				continue
 			}
 		} else {
 			stable = 0
@@ -424,3 +453,18 @@ func (h *RecHook) Len() int { h.mu.Lock(); defer h.mu.Unlock(); return len(h.eve
 
 // Pending returns the bytes the broker wrote that TakeBytes has not consumed yet.
 func (l *Link) Pending() []byte { return l.Conn.outFrom(l.parsed) }
+
+// HoldTeardown takes the link's teardown out of the automatic policy: the handler stays parked at TeardownPoint
+// until the harness releases it explicitly.
+func (l *Link) HoldTeardown() {
+	l.mu.Lock()
+	l.autoTeardown = false
+	l.parkReq[TeardownPoint] = true
+	l.mu.Unlock()
+}
+
+func (l *Link) parkedAuto() bool {
+	l.mu.Lock()
+	defer l.mu.Unlock()
+	return l.autoTeardown && l.parkedAt == TeardownPoint
+}
